@@ -6,6 +6,10 @@ import (
 	"sort"
 	"strings"
 
+	"github.com/llir/llvm/ir"
+	"github.com/llir/llvm/ir/constant"
+	"github.com/llir/llvm/ir/types"
+
 	"verif/internal/corpus"
 	"verif/internal/fw"
 	"verif/internal/graph"
@@ -110,6 +114,15 @@ func c04One(r *fw.Rec, id, x string) {
 			r.Violate(fw.Violation{Key: "binding/" + id + "/metadata-" + key, Input: x, What: what})
 		}
 	}
+	// a type name written in front of a string or empty array constant of a global
+	// initializer (`%S c"abc"`, `%A []`): the constant's type is the object the
+	// module lists as the definition of that name, as for every other constant
+	if len(c.Problems) == 0 {
+		if name, want, got := c04TypedArrayConstants(x, m); name != "" {
+			r.Violate(fw.Violation{Key: "binding/" + id + "/type-name-in-front-of-array-constant", Input: x,
+				What: fmt.Sprintf("the input types %d string or empty array constants of global initializers with the name %%%s; %d such constants of the parsed module have the listed definition of %%%s as their type object (the others got a type object made for them)", want, name, got, name)})
+		}
+	}
 	// binding of type names: in type definitions and global definitions (lines
 	// starting with % or @, and declarations) every named type is spelled as
 	// often in the printed module as in the input; a use resolved to the
@@ -202,6 +215,81 @@ var reTypeDefLine = regexp.MustCompile(`(?m)^%("(?:[^"\\]|\\.)*"|[-a-zA-Z$._0-9]
 // typeNameTokens counts, per defined type name (as spelled, quotes kept only
 // where needed), the %name tokens on the type-definition, global and
 // declaration lines of a module text.
+var (
+	reQuoted        = regexp.MustCompile(`"[^"]*"`)
+	reNamedArrayLit = regexp.MustCompile(`%([A-Za-z._$][A-Za-z0-9._$-]*) (c""|\[\])`)
+)
+
+// c04TypedArrayConstants compares, per plain type name, the string and empty
+// array constants typed with that name on the global-definition lines of the
+// text with the constants of those kinds in the global initializers whose type
+// is the TypeDefs object of that name. It returns the first name that differs.
+func c04TypedArrayConstants(text string, m *ir.Module) (name string, want, got int) {
+	wantBy := map[string]int{}
+	for _, line := range strings.Split(text, "\n") {
+		if !strings.HasPrefix(line, "@") {
+			continue
+		}
+		if i := strings.Index(line, ";"); i >= 0 && !strings.Contains(line[:i], "\"") {
+			line = line[:i]
+		}
+		line = reQuoted.ReplaceAllString(line, `""`)
+		for _, mm := range reNamedArrayLit.FindAllStringSubmatch(line, -1) {
+			wantBy[mm[1]]++
+		}
+	}
+	if len(wantBy) == 0 {
+		return "", 0, 0
+	}
+	defs := map[types.Type]string{}
+	for _, t := range m.TypeDefs {
+		defs[t] = t.Name()
+	}
+	gotBy := map[string]int{}
+	var walk func(c constant.Constant)
+	walk = func(c constant.Constant) {
+		switch c := c.(type) {
+		case *constant.CharArray:
+			if n, ok := defs[c.Typ]; ok {
+				gotBy[n]++
+			}
+		case *constant.Array:
+			if len(c.Elems) == 0 {
+				if n, ok := defs[c.Typ]; ok {
+					gotBy[n]++
+				}
+			}
+			for _, e := range c.Elems {
+				walk(e)
+			}
+		case *constant.Struct:
+			for _, e := range c.Fields {
+				walk(e)
+			}
+		case *constant.Vector:
+			for _, e := range c.Elems {
+				walk(e)
+			}
+		}
+	}
+	for _, g := range m.Globals {
+		if g.Init != nil {
+			walk(g.Init)
+		}
+	}
+	var names []string
+	for n := range wantBy {
+		names = append(names, n)
+	}
+	sort.Strings(names)
+	for _, n := range names {
+		if gotBy[n] != wantBy[n] {
+			return n, wantBy[n], gotBy[n]
+		}
+	}
+	return "", 0, 0
+}
+
 func typeNameTokens(text string) map[string]int {
 	norm := func(tok string) string {
 		if len(tok) >= 2 && tok[0] == '"' {
